@@ -155,7 +155,7 @@ class Gen:
 
     def g_setflag(self, depth):
         return {'op': 'setflag', 'f': self.rng.randrange(self.objects['flags']),
-                'v': self.rng.random() < 0.7}
+                'v': self.rng.random() < 0.7, 'via_inverse': self.rng.random() < 0.2}
 
     def g_settracked(self, depth):
         rng = self.rng
